@@ -115,6 +115,10 @@ impl<'a, T: Read + Write + Seek> ImageWriter<'a, T> {
         properties: VisualReferenceImageProperties,
         mask: Option<&mut dyn Read>,
     ) -> Result<()> {
+        if self.finalized {
+            // The image was already added to the file, the new data would never be listed
+            Error::invalid("Cannot add image data to an image that was already finalized")?
+        }
         if self.image.visual_reference.is_some() {
             Error::invalid("A visual reference image is already set")?
         }
@@ -148,6 +152,10 @@ impl<'a, T: Read + Write + Seek> ImageWriter<'a, T> {
         properties: PinholeImageProperties,
         mask: Option<&mut dyn Read>,
     ) -> Result<()> {
+        if self.finalized {
+            // The image was already added to the file, the new data would never be listed
+            Error::invalid("Cannot add image data to an image that was already finalized")?
+        }
         if self.image.projection.is_some() {
             Error::invalid("A projected image is already set")?
         }
@@ -181,6 +189,10 @@ impl<'a, T: Read + Write + Seek> ImageWriter<'a, T> {
         properties: SphericalImageProperties,
         mask: Option<&mut dyn Read>,
     ) -> Result<()> {
+        if self.finalized {
+            // The image was already added to the file, the new data would never be listed
+            Error::invalid("Cannot add image data to an image that was already finalized")?
+        }
         if self.image.projection.is_some() {
             Error::invalid("A projected image is already set")?
         }
@@ -214,6 +226,10 @@ impl<'a, T: Read + Write + Seek> ImageWriter<'a, T> {
         properties: CylindricalImageProperties,
         mask_data: Option<&mut dyn Read>,
     ) -> Result<()> {
+        if self.finalized {
+            // The image was already added to the file, the new data would never be listed
+            Error::invalid("Cannot add image data to an image that was already finalized")?
+        }
         if self.image.projection.is_some() {
             Error::invalid("A projected image is already set")?
         }
